@@ -166,3 +166,41 @@ func H_CallerIsolation() {
 	verif.Assert(same(beforeReader, observe(reader.Metadata(), tres.SpecOf(reader), p)), "mutating a caller-held object never changes another reader's copy")
 	verif.Cover("isolation checked")
 }
+
+// H_FinalizerCOW: finalizer sets are copy-on-write whatever spare capacity the shared backing array
+// has: after copying metadata that carries 0..4 finalizers (added one by one, so the array has room
+// to spare), adding or removing finalizers on one copy never shows through the other.
+func H_FinalizerCOW() {
+	md := resource.NewMetadata(tres.NS, tres.TypeA, "a", resource.VersionUndefined)
+	names := []string{"f1", "f2", "f3", "f4"}
+	k := verif.Choose("finalizers", 5)
+	for i := 0; i < k; i++ {
+		md.Finalizers().Add(names[i])
+	}
+	if k > 0 && verif.Choose("removedOne", 2) == 1 {
+		md.Finalizers().Remove(names[0]) // leaves spare capacity as well
+		names, k = names[1:], k-1
+	}
+	other := md.Copy()
+	switch verif.Choose("mutation", 3) {
+	case 0:
+		md.Finalizers().Add("x")
+		other.Finalizers().Add("y")
+		verif.Assert(md.Finalizers().Has("x") && !md.Finalizers().Has("y"), "a finalizer added to a copy does not appear in the original")
+		verif.Assert(other.Finalizers().Has("y") && !other.Finalizers().Has("x"), "a finalizer added to the original does not appear in the copy")
+	case 1:
+		if k == 0 {
+			return
+		}
+		md.Finalizers().Remove(names[0])
+		verif.Assert(other.Finalizers().Has(names[0]) && len(*other.Finalizers()) == k, "removing a finalizer from the original leaves the copy intact")
+	case 2:
+		other.Finalizers().Add("y")
+		md.Finalizers().Add("x")
+		verif.Assert(other.Finalizers().Has("y") && !other.Finalizers().Has("x") && md.Finalizers().Has("x") && !md.Finalizers().Has("y"), "additions in either order stay private")
+	}
+	for i := 0; i < k; i++ {
+		verif.Assert(other.Finalizers().Has(names[i]), "the copy keeps the finalizers it was copied with")
+	}
+	verif.Cover("finalizer sets independent")
+}
